@@ -319,6 +319,44 @@ def run(ctx):
                                 break
 
         sect[repr(code)] = round(time.time() - t_fam, 1)
+    # ---- histories on live decoder objects: A(P1), B(P2), A(P1) with reused instances (added after a seeded change
+    #      that shared cached tensors between instances was missed): every value still equals the exact coset sum ----
+    for fam, code, decs in families:
+        n, m = code.n_k_d[0], code.stabilizers.shape[0]
+        if n > 13:
+            continue
+        oracle = GroupOracle(code)
+        S = code.stabilizers
+        LX, LZ = code.logical_xs[0], code.logical_zs[0]
+        for dname, mk, has_stp in decs:
+            for trial in range(ctx.pick(2, 8)):
+                mode_a, mode_b = ('c', 'c') if has_stp is None else (rng.choice(['c', 'r', 'a']), rng.choice(['c', 'r', 'a']))
+                A, B = mk(mode_a, None), mk(mode_b, None)
+                P1, P2 = rand_dist(rng), rand_dist(rng)
+                syn = np.array([rng.random() < 0.4 for _ in range(m)], dtype=int)
+                f_pauli = decs[0][1]('c', None).sample_recovery(code, syn)
+                f = f_pauli.to_bsf()
+                cands = [f, f ^ LX, f ^ LX ^ LZ, f ^ LZ]
+                script = [(A, P1), (B, P2), (A, P1), (B, P1), (A, P2), (B, P2)]
+                for step, (dec, dist) in enumerate(script):
+                    a, D = dist_ints(dist)
+                    Dn = Fraction(D) ** n
+                    exact = [Fraction(oracle.coset_int(c, a)) / Dn for c in cands]
+                    rep = {'code': repr(code), 'decoder': repr(dec), 'syndrome': bitstr(syn), 'history_step': step,
+                           'history': ['%s(%s)' % ('AB'[d is B], 'P1' if q is P1 else 'P2') for d, q in script[:step + 1]],
+                           'P1': [float(x).hex() for x in P1], 'P2': [float(x).hex() for x in P2]}
+                    try:
+                        ps, _ = dec._coset_probabilities(tuple(dist), f_pauli.copy())
+                    except Exception as e:  # noqa
+                        ctx.violation('exception', '_coset_probabilities raised ' + exc_class(e), rep)
+                        break
+                    ctx.count(('history', repr(code), dname, trial, step), True, 'live-instance-history')
+                    vals = [to_frac(p_) for p_ in ps]
+                    bad = [ci for ci in range(4) if vals[ci] is None or abs(vals[ci] - exact[ci]) > REL * exact[ci]]
+                    if bad:
+                        ctx.violation('coset-probability-history', 'coset probability of a reused decoder instance differs from the '
+                                      'exact sum after another instance was used with another distribution', rep)
+                        break
     t_sec = time.time()
     # ---- library error models through decode (documented distributions) ----------------------------------
     for code, dec in ((PlanarCode(3, 3), PlanarMPSDecoder()), (PlanarCode(2, 3), PlanarRMPSDecoder(mode='a')),
